@@ -10,7 +10,10 @@ PAYLOAD = ['"', "'", '<', '>', '&', '&quot;', '&#34;', '&#x22;', '&amp;', '&lt;'
            '[', ']', '\\[', '\\]', '`', '*', '_', '<b>', '</a>', '<script>', '-->', '&#', ';', '#', '?', 'é', '\\', ' ',
            # what a template engine or str.format would react to
            'data:image/png;base64,', 'data:text/html,', 'javascript:', 'vbscript:', 'file:///',
-           '{', '}', '{}', '{0}', '{inner}', '{target}', '{title}', '%s', '%(a)s', '$x', '${x}', '{{', '}}']
+           '{', '}', '{}', '{0}', '{inner}', '{target}', '{title}', '%s', '%(a)s', '$x', '${x}', '{{', '}}',
+           # full-width and small-form look-alikes of the significant characters: ordinary text, unless something
+           # normalises them (NFKC) after the escaping has been done
+           '\uff02', '\uff07', '\uff1c', '\uff1e', '\uff06', '\ufe64', '\ufe65', '\ufe60', '\uff1cscript\uff1e', '\uff02\uff1e']
 
 
 def payload(t, lo=1, hi=6, no_space=False, avoid='', frags=None):
